@@ -28,14 +28,18 @@ def fail(ident, what, witness, wclass="value"):
 
 TOK = ["{{a}}", "{{a|x}}", "{{{1}}}", "[[L]]", "[http://x y]", "{|", "|-", "|}", "* ", "# ", ": ", "==h==", "''", "'''",
        "<b>", "</b>", "<nowiki/>", "<nowiki />", "<!--", "-->", "__TOC__", "~~~~", "|", "=", "!", "{{#if:x|y}}", " ", "t",
-       "\n", "<pre>", "{{", "}}", "[[", "]]", "<ref>", "{{PAGENAME}}"]
+       "\n", "<pre>", "{{", "}}", "[[", "]]", "<ref>", "{{PAGENAME}}", "_", "a_b", "&#95;", "&amp;", "&", ";", "#", "\"", "-{", "}-",
+       "-{zh-hans:x}-"]
 INV = {v: k for k, v in _nowiki_map.items()}
 
 
+import re as _re
+_ENT = _re.compile("|".join(_re.escape(e) for e in sorted(INV, key=len, reverse=True)))
+
+
 def decode(s):
-    for ent, ch in INV.items():
-        s = s.replace(ent, ch)
-    return s
+    """inverse of the quoting: ONE left-to-right pass (a second pass would also accept doubly quoted text)"""
+    return _ENT.sub(lambda m: INV[m.group(0)], s)
 
 
 ctx = new_ctx({"a": "A{{{1|}}}", "id": "{{{1}}}"})
@@ -91,11 +95,15 @@ contents = [""] + ["".join(t) for n in range(1, maxlen + 1) for t in itertools.p
 if tier == "quick":
     contents = contents[:1 + len(TOK)] + rng.sample(contents[1 + len(TOK):], 500)
 contents += ["".join(rng.choice(TOK) for _ in range(rng.randint(3, 6))) for _ in range(100 if tier == "quick" else 3000)]
-for c in contents:
+ctx_en = ctx
+ctx_zh = new_ctx({"a": "A{{{1|}}}", "id": "{{{1}}}"}, lang_code="zh")     # LanguageConverter markup is stripped there
+for ci, c in enumerate(contents):
     if "</nowiki" in c.lower():
         continue
     nw = "<nowiki>" + c + "</nowiki>"
-    for cname, mk in CONTEXTS.items():
+    for cname, mk in list(CONTEXTS.items()) + [("zh:" + k, CONTEXTS[k]) for k in ("top", "template-argument", "link-text")
+                                               if ("-{" in c or "}-" in c or ci % 7 == 0)]:
+        ctx = ctx_zh if cname.startswith("zh:") else ctx_en
         text, pre, post = mk(nw)
         ctx.start_page("Tt")
         del hook_calls[:]
@@ -138,11 +146,12 @@ for c in contents:
                     continue
                 ks = kinds_of(root, [])
                 txt = "".join(texts_of(root, []))
-                if ks or (c != "" and decode(html.unescape(txt)) != pre + c + post and decode(txt) != pre + c + post):
+                if ks or (c != "" and decode(txt) != pre + c + post):
                     fail("c15:parse#single-text-node", f"{ptext!r}: kinds {ks}, text {txt!r}", {"content": c, "text": ptext})
     distinct.add(c)
 samples.append({"content": contents[len(contents) // 2]})
 
+ctx = ctx_en
 # comments: the result equals that of the input with each comment (and the line break directly before it) deleted
 CT = ["a", "\n", "<!--c-->", "<!-- {{a}} -->", "{{a|x}}", " ", "* i", "<!--\n-->", "==h==\n"]
 clen = 3 if tier == "quick" else 4
@@ -167,4 +176,5 @@ emit({"evaluations": evaluations, "distinct_nontrivial": len(distinct),
       "rule": "distinct nowiki contents (each in 5 embedding contexts) + distinct comment documents",
       "failures": list(failures.values()), "samples": samples,
       "bound": f"contents of <= {maxlen} tokens over {len(TOK)} wikitext tokens ({'sampled' if tier == 'quick' else 'all'}), random to "
-               f"6 tokens, x 5 contexts; all comment documents of <= {clen} tokens over {len(CT)} tokens"})
+               f"6 tokens, x 7 contexts (and 3 of them again on a zh wiki, where LanguageConverter markup is stripped); "
+               f"all comment documents of <= {clen} tokens over {len(CT)} tokens"})
